@@ -1282,3 +1282,24 @@ package core
 // back as it is - arrays included, element for element.
 //@ func Copy
 //@   ensures[C14+C04.copy_hands_back_what_is_not_a_map] !is(x, Map) && !is(x, map[string]interface{}) && !is(x, map[interface{}]interface{}) ==> result == x
+
+// ---- C13: the timer histories (every timed operation stores into one; the service reads them) -----------------------------
+// Ring-buffer invariant of a TimerHistory: the buffer has `size` slots and the write offset points at one of them. It is
+// established by newTimerHistory (under the configuration assumption TimerHistorySize >= 1 whenever MaxTimers lets a history
+// be created at all), kept by Timer.store, and carried over by Copy; GetTimerHistory's two index loops rely on it.
+//@ define wfTH(h) = h != nil && h.size >= 1 && len(h.buffer) == h.size && 0 <= h.offset && h.offset < h.size
+//@ define wfTHs() = forall(k, string, has(timerHistories, k) ==> wfTH(timerHistories[k]))
+//@ func newTimerHistory
+//@   assume-entry SystemParameters.TimerHistorySize >= 1
+//@   ensures[C13.new_timer_history_is_well_formed] wfTH(result)
+//@   modifies nothing
+//@ func (*TimerHistory).Copy
+//@   requires[C13.timer_history_copy_of_well_formed] wfTH(history)
+//@   ensures[C13.timer_history_copy_is_well_formed] wfTH(result) && result.size == old(history.size) && result.offset == old(history.offset)
+//@ func (*Timer).store
+//@   assume-entry wfTHs()
+//@   ensures[C13.timer_store_keeps_histories_well_formed] wfTHs()
+//@ func GetTimerHistory
+//@   assume-entry wfTHs()
+//@   loop 1: invariant[C13.timer_history_first_loop_in_range] clone.offset <= i && wfTH(clone)
+//@   loop 2: invariant[C13.timer_history_second_loop_in_range] 0 <= i && wfTH(clone)
